@@ -30,6 +30,7 @@ type Label struct {
 	I        int             `json:"i"`
 	CanFast  map[string]bool `json:"canFast"`
 	Verified []int           `json:"verified"`
+	AdvQ     map[string]int  `json:"advQ"` // the reqq of the peer's extended handshake (0: no handshake)
 }
 
 type Scenario struct {
@@ -240,6 +241,9 @@ func Replay(in []byte) any {
 			protocol.HandshakeResult{Hash: hash.Hash(make([]byte, 20)), Id: hash.Hash(id), Fast: sc.Steps[0].CanFast[n]},
 			make(chan peer.TorEvent, 4096), wr)
 		w.peers[n] = &remote{p: p, writer: wr, fast: sc.Steps[0].CanFast[n]}
+		if q := sc.Steps[0].AdvQ[n]; q > 0 {
+			peer.VerifHandleMessage(p, protocol.Extended0{ReqQ: uint32(q), Messages: map[string]uint8{"ut_pex": 1}})
+		}
 	}
 	defer func() {
 		// leave the global counter as we found it
